@@ -1090,9 +1090,13 @@ fn run_conc(case: &ConcCase) -> ConcOut {
         let _ = n;
         case.pprogs[k].iter().filter_map(|o| match o { POp::Push(v) | POp::TrySend(v) | POp::Send(v) => Some(*v as usize), _ => None }).collect::<Vec<_>>()
     }).collect();
+    let started: std::collections::BTreeSet<usize> = (0..np).flat_map(|k| {
+        case.pprogs[k].iter().take(next_op[2 + k]).filter_map(|o| match o { POp::Push(v) | POp::TrySend(v) | POp::Send(v) => Some(*v as usize), _ => None }).collect::<Vec<_>>()
+    }).collect();
     for id in created {
         let d = ledger.drops[id].load(Ordering::SeqCst);
         if d > 1 { viol.push(format!("payload {} released {} times", id, d)); }
+        if d == 0 && started.contains(&id) { viol.push(format!("payload {} was never released (leak)", id)); }
     }
     let _ = raw;
     viol.truncate(6);
@@ -1268,15 +1272,15 @@ fn main() {
     let rep = |n: usize, t: usize| std::iter::repeat(t).take(n);
     // witness: the last source is dropped between recv()'s closed check and its notified().await
     let lost_wakeup = ConcCase { cap: 2, cprog: vec![COp::Recv], nstop: 0, pprogs: vec![vec![POp::DropSrc]],
-        plan: rep(7, 0).chain(rep(4, 2)).chain(rep(4, 0)).collect() };
+        plan: rep(8, 0).chain(rep(4, 2)).chain(rep(12, 0)).collect() };
     replay_case(&mut out, &lost_wakeup, "corpus-replay", None);
     // witness: same window for stop()
     let lost_wakeup_stop = ConcCase { cap: 2, cprog: vec![COp::Recv], nstop: 1, pprogs: vec![vec![]],
-        plan: rep(2, 0).chain(rep(3, 1)).chain(rep(10, 0)).collect() };
+        plan: rep(3, 0).chain(rep(3, 1)).chain(rep(12, 0)).collect() };
     replay_case(&mut out, &lost_wakeup_stop, "corpus-replay", None);
     // witness: send + drop of the source between recv()'s pop (empty) and its closed check
     let close_race = ConcCase { cap: 2, cprog: vec![COp::Recv, COp::Recv], nstop: 0, pprogs: vec![vec![POp::Send(7), POp::DropSrc]],
-        plan: rep(5, 0).chain(rep(11, 2)).chain(rep(8, 0)).collect() };
+        plan: rep(7, 0).chain(rep(11, 2)).chain(rep(30, 0)).collect() };
     replay_case(&mut out, &close_race, "corpus-replay", None);
     // witness F22: two producers pass the full test together and write the same slot (the first sample is
     // overwritten without being dropped: a leak here, a data race when the two writes overlap)
